@@ -290,8 +290,19 @@ func init() {
 	reg("strings.ToUpper", caseFn("str_upper"))
 	reg("strings.Split", func(ex *Exec, fr *Frame, st *State, reach string, a []Val, sig *types.Signature, pos token.Pos) Val {
 		r := ex.freshStrSlice(st, sig.Results().At(0).Type(), "split")
-		ex.sc.assert(mkImp(mkCmp(">", slen(a[1].term()), "0"), mkCmp(">=", r.L[2], "1")))
-		ex.sc.assert(mkCmp("<=", r.L[2], mkAdd(slen(a[0].term()), "1")))
+		s, sep := a[0].term(), a[1].term()
+		ex.splitFuns()
+		n := app("split_n", s, sep)
+		ex.sc.assert(mkEq(r.L[2], n))
+		ex.sc.assert(mkCmp("<=", r.L[2], mkAdd(slen(s), "1")))
+		// with a non-empty separator the parts tile s: part k is s[B(k):E(k)], B(0)=0,
+		// B(k+1)=E(k)+len(sep), E(n-1)=len(s)
+		nz := mkCmp(">", slen(sep), "0")
+		el := ex.strElem(st, r, "k")
+		ex.sc.assert(mkImp(nz, mkAnd(mkCmp(">=", n, "1"), mkEq(app("split_b", s, sep, "0"), "0"),
+			mkEq(app("split_e", s, sep, mkSub(n, "1")), slen(s)))))
+		ex.sc.assert(mkImp(nz, fmt.Sprintf("(forall ((k Int)) (! (=> (and (<= 0 k) (< k %s)) (and (= %s (ssub %s (split_b %s %s k) (split_e %s %s k))) (<= 0 (split_b %s %s k)) (<= (split_b %s %s k) (split_e %s %s k)) (<= (split_e %s %s k) (slen %s)) (=> (< (+ k 1) %s) (= (split_b %s %s (+ k 1)) (+ (split_e %s %s k) (slen %s)))))) :pattern (%s)))",
+			n, el, s, s, sep, s, sep, s, sep, s, sep, s, sep, s, sep, s, n, s, sep, s, sep, sep, el)))
 		return r
 	})
 	reg("strings.SplitN", func(ex *Exec, fr *Frame, st *State, reach string, a []Val, sig *types.Signature, pos token.Pos) Val {
@@ -692,10 +703,33 @@ func init() {
 		if re != nil {
 			n := re.MaxCap()
 			ex.sc.assert(mkImp(mkNot(isNil), mkEq(r.L[2], num(int64(n+1)))))
+			// index witnesses: group g is s[b_g:e_g] (or absent for optional groups)
+			begin := make([]string, n+1)
+			end := make([]string, n+1)
+			must := mandatoryGroups(re)
+			must[0] = true
 			for g := 0; g <= n; g++ {
-				ex.sc.assert(mkCmp("<=", slen(ex.strElem(st, r, num(int64(g)))), slen(s)))
+				begin[g] = ex.sc.fresh(fmt.Sprintf("g%d_b", g), sInt)
+				end[g] = ex.sc.fresh(fmt.Sprintf("g%d_e", g), sInt)
+				el := ex.strElem(st, r, num(int64(g)))
+				in := mkAnd(mkCmp("<=", "0", begin[g]), mkCmp("<=", begin[g], end[g]), mkCmp("<=", end[g], slen(s)),
+					mkEq(el, app("ssub", s, begin[g], end[g])), mkEq(slen(el), mkSub(end[g], begin[g])))
+				if g > 0 {
+					in = mkAnd(in, mkCmp("<=", begin[0], begin[g]), mkCmp("<=", end[g], end[0]))
+				}
+				if must[g] {
+					if sub := captureByIndex(re, g); sub != nil {
+						if mn := reMinLen(sub); mn > 0 {
+							in = mkAnd(in, mkCmp(">=", mkSub(end[g], begin[g]), num(int64(mn))))
+						}
+					}
+					ex.sc.assert(mkImp(mkNot(isNil), in))
+				} else {
+					ex.sc.assert(mkImp(mkNot(isNil), mkOr(in, mkEq(el, "STR_EMPTY"))))
+				}
+				ex.sc.assert(mkCmp("<=", slen(el), slen(s)))
 			}
-			ex.submatches = append(ex.submatches, submatchRec{re: re, subject: s, res: r, isNil: isNil})
+			ex.regexpLayout(re, s, isNil, begin, end)
 		}
 		return res
 	})
@@ -903,19 +937,34 @@ func init() {
 			target = Val{T: ptrT, L: []string{target.L[1]}}
 		}
 		lv := ex.ptrLV(target)
-		ex.flagRegs[fsr] = append(ex.flagRegs[fsr], lv)
+		// one registry for all flag sets of the unit: the term naming the set differs
+		// between loads, and havocking the locations of every set is the sound side
+		_ = fsr
+		ex.flagRegs["*"] = append(ex.flagRegs["*"], lv)
 		return Val{T: sig.Results()}
 	}
 	reg("(*flag.FlagSet).Var", regVar)
 	reg("(*flag.FlagSet).BoolVar", regVar)
 	reg("(*flag.FlagSet).StringVar", regVar)
 	reg("(*flag.FlagSet).Parse", func(ex *Exec, fr *Frame, st *State, reach string, a []Val, sig *types.Signature, pos token.Pos) Val {
-		for _, lv := range ex.flagRegs[a[0].term()] {
+		if len(ex.flagRegs["*"]) == 0 {
+			panic(unsupported("flag.FlagSet.Parse on a set whose registrations are not visible"))
+		}
+		for _, lv := range ex.flagRegs["*"] {
 			ex.store(st, lv, ex.freshVal(st, lv.T, "flagval"))
 		}
-		ex.assumedUsed["flag.FlagSet.Parse: calls only the registered Values' Set methods (havoc of registered locations)"] = true
+		ex.assumedUsed["flag.FlagSet.Parse: calls only the registered Values' Set methods (havoc of registered locations); NArg() is the number of arguments it did not consume"] = true
+		left := ex.sc.fresh("flag_leftover", sInt)
+		ex.sc.assert(mkCmp(">=", left, "0"))
+		ex.compSort["flagleft"] = sInt
+		st.heap["flagleft"] = left
+		ex.noteWrite("flagleft", "*")
 		return packResults(sig, ex.freshResults(st, sig, "flagparse"))
 	})
+	reg("(*flag.FlagSet).NArg", func(ex *Exec, fr *Frame, st *State, reach string, a []Val, sig *types.Signature, pos token.Pos) Val {
+		return scalar(tInt, ex.flagLeft(st))
+	})
+	reg("(*flag.FlagSet).Args", nothing)
 	reg("(*flag.FlagSet).Visit", func(ex *Exec, fr *Frame, st *State, reach string, a []Val, sig *types.Signature, pos token.Pos) Val {
 		cl := a[1].Fn
 		if cl == nil {
@@ -929,6 +978,22 @@ func init() {
 		arg := d.freshVal(ds, cl.Fn.Signature.Params().At(0).Type(), "flag")
 		d.sc.assert(mkCmp(">", arg.term(), "0"))
 		d.callFunction(fr.cloneRegs(), ds, reach, cl.Fn, cl.Bindings, []Val{arg}, cl.Fn.Signature, pos)
+		// callback invariants of the enclosing function's contract: established
+		// before the iteration, preserved by one run of the callback from any state
+		// that satisfies them, and therefore true afterwards
+		var cbInv []Clause
+		if fr.ctr != nil {
+			cbInv = fr.ctr.Callback
+		}
+		evalInv := func(s *State, cl Clause) string {
+			env := ex.newSpecEnv(fr.fn, s, fr.entry)
+			env.fr = fr
+			ex.bindParams(env, fr.fn, fr.ctr, fr.params)
+			return env.evalBool(cl.E, "callback invariant "+cl.Text)
+		}
+		for _, cl := range cbInv {
+			ex.oblige(fr, "inv-init", cl.Tags, pos, "callback invariant holds before the iteration: "+cl.Text, reach, evalInv(st, cl))
+		}
 		seen := map[string]bool{}
 		for _, w := range d.wlog.recs {
 			if w.comp == compAlloc || seen[w.comp] {
@@ -940,11 +1005,17 @@ func init() {
 			st.heap[w.comp] = ex.sc.fresh("visit_hv", srt)
 			ex.noteWrite(w.comp, "*")
 		}
-		// the callback itself must be safe for every flag
+		for _, cl := range cbInv {
+			ex.sc.assert(evalInv(st, cl))
+		}
+		// the callback itself must be safe for every flag (and preserve the invariants)
 		farg := ex.freshVal(st, cl.Fn.Signature.Params().At(0).Type(), "flag")
 		ex.sc.assert(mkCmp(">", farg.term(), "0"))
 		s2 := st.clone()
 		ex.callFunction(fr, s2, reach, cl.Fn, cl.Bindings, []Val{farg}, cl.Fn.Signature, pos)
+		for _, cl := range cbInv {
+			ex.oblige(fr, "inv-step", cl.Tags, pos, "callback invariant preserved by the callback: "+cl.Text, reach, evalInv(s2, cl))
+		}
 		return Val{T: sig.Results()}
 	})
 	ifaceIntrinsics["error.Error"] = func(ex *Exec, fr *Frame, st *State, reach string, recv Val, args []Val, sig *types.Signature, pos token.Pos) Val {
@@ -1017,4 +1088,139 @@ func (ex *Exec) decFacts(r, n string) {
 	// the decimal text of a non-negative number consists of digits
 	ex.sc.assert(mkImp(mkCmp(">=", n, "0"), fmt.Sprintf("(forall ((i Int)) (! (=> (and (<= 0 i) (< i (slen %s))) (and (<= 48 (sat %s i)) (<= (sat %s i) 57))) :pattern ((sat %s i))))", r, r, r, r)))
 	ex.sc.assert(mkImp(mkCmp(">=", n, "0"), mkAnd(mkEq(app("str_uval", r, "10"), n), app("str_isnum", r, "10", "false"))))
+}
+
+// regexpLayout derives, from the top-level concatenation of the pattern, how
+// the match and its (top-level, mandatory) groups tile the subject: anchors,
+// adjacency of consecutive elements, and the character class of star/plus
+// elements that lie between two groups.
+func (ex *Exec) regexpLayout(re *syntax.Regexp, s, isNil string, begin, end []string) {
+	if re.Op != syntax.OpConcat {
+		return
+	}
+	cur := begin[0] // position reached so far (exact)
+	exact := true
+	for _, sub := range re.Sub {
+		switch sub.Op {
+		case syntax.OpBeginText:
+			ex.sc.assert(mkImp(mkNot(isNil), mkEq(begin[0], "0")))
+		case syntax.OpEndText:
+			ex.sc.assert(mkImp(mkNot(isNil), mkEq(end[0], slen(s))))
+		case syntax.OpCapture:
+			g := sub.Cap
+			if exact {
+				ex.sc.assert(mkImp(mkNot(isNil), mkEq(begin[g], cur)))
+			}
+			cur, exact = end[g], true
+		case syntax.OpStar, syntax.OpPlus:
+			// a run of one character class: introduce its end position
+			e := ex.sc.fresh("run_e", sInt)
+			if exact {
+				cls := classPred(sub.Sub[0], app("sat", s, "j"))
+				min := "0"
+				if sub.Op == syntax.OpPlus {
+					min = "1"
+				}
+				ex.sc.assert(mkImp(mkNot(isNil), mkAnd(mkCmp("<=", mkAdd(cur, min), e), mkCmp("<=", e, end[0]))))
+				if cls != "" {
+					ex.sc.assert(mkImp(mkNot(isNil), fmt.Sprintf("(forall ((j Int)) (! (=> (and (<= %s j) (< j %s)) %s) :pattern ((sat %s j))))", cur, e, cls, s)))
+				}
+			}
+			cur = e
+		case syntax.OpLiteral:
+			if exact {
+				lit := string(sub.Rune)
+				for k := 0; k < len(lit); k++ {
+					ex.sc.assert(mkImp(mkNot(isNil), mkEq(app("sat", s, mkAdd(cur, num(int64(k)))), num(int64(lit[k])))))
+				}
+				cur = ex.sc.define("litend", sInt, mkAdd(cur, num(int64(len(lit)))))
+			}
+		default:
+			exact = false
+		}
+	}
+	if exact {
+		ex.sc.assert(mkImp(mkNot(isNil), mkEq(end[0], cur)))
+	}
+}
+
+// classPred: membership of byte term b in a character class (ASCII classes only).
+func classPred(re *syntax.Regexp, b string) string {
+	if re.Op != syntax.OpCharClass {
+		return ""
+	}
+	var cs []string
+	for i := 0; i+1 < len(re.Rune); i += 2 {
+		lo, hi := re.Rune[i], re.Rune[i+1]
+		if lo > 127 {
+			continue
+		}
+		if hi > 127 {
+			hi = 127
+		}
+		cs = append(cs, mkAnd(mkCmp("<=", num(int64(lo)), b), mkCmp("<=", b, num(int64(hi)))))
+	}
+	return mkOr(cs...)
+}
+
+func (ex *Exec) flagLeft(st *State) string {
+	if t, ok := st.heap["flagleft"]; ok {
+		return t
+	}
+	ex.compSort["flagleft"] = sInt
+	t := ex.sc.global("H0_flagleft", sInt)
+	return t
+}
+
+func (ex *Exec) splitFuns() {
+	ex.sc.fun("split_n", []string{sStr, sStr}, sInt)
+	ex.sc.fun("split_b", []string{sStr, sStr, sInt}, sInt)
+	ex.sc.fun("split_e", []string{sStr, sStr, sInt}, sInt)
+}
+
+func captureByIndex(re *syntax.Regexp, g int) *syntax.Regexp {
+	if g == 0 {
+		return re
+	}
+	if re.Op == syntax.OpCapture && re.Cap == g {
+		return re.Sub[0]
+	}
+	for _, s := range re.Sub {
+		if r := captureByIndex(s, g); r != nil {
+			return r
+		}
+	}
+	return nil
+}
+
+// reMinLen: a lower bound on the number of bytes any match of re has.
+func reMinLen(re *syntax.Regexp) int {
+	switch re.Op {
+	case syntax.OpLiteral:
+		return len(string(re.Rune))
+	case syntax.OpCharClass, syntax.OpAnyChar, syntax.OpAnyCharNotNL:
+		return 1
+	case syntax.OpCapture, syntax.OpPlus:
+		return reMinLen(re.Sub[0])
+	case syntax.OpRepeat:
+		return re.Min * reMinLen(re.Sub[0])
+	case syntax.OpConcat:
+		n := 0
+		for _, s := range re.Sub {
+			n += reMinLen(s)
+		}
+		return n
+	case syntax.OpAlternate:
+		m := -1
+		for _, s := range re.Sub {
+			if k := reMinLen(s); m < 0 || k < m {
+				m = k
+			}
+		}
+		if m < 0 {
+			m = 0
+		}
+		return m
+	}
+	return 0
 }
